@@ -15,7 +15,7 @@ import (
 	"verifharness/internal/rt"
 )
 
-const c12Watchdog = 4 * time.Second
+const c12Watchdog = 8 * time.Second
 
 // reentry describes what a node callback does.
 type reentry struct {
@@ -117,7 +117,7 @@ func underWatchdog(run *rt.Run, sc c12Scenario, what string, frame string, f fun
 		return "", false, ""
 	}
 	s1, p1, _ := state()
-	time.Sleep(200 * time.Millisecond)
+	time.Sleep(500 * time.Millisecond)
 	s2, p2, raw := state()
 	select {
 	case <-done:
